@@ -140,6 +140,12 @@ let model_line line =
     Printf.sprintf "n=%d err=%s used=%d" (List.length buf) (match e with None -> "-" | Some e -> ioerr_str e)
       (script_bytes s - script_bytes rest)
   | ["I"; i] -> hex_of_bytes (itoa (z_of_string i))
+  | ["TR"; var; src] -> (* the generator tool: template rendering of a fetched file *)
+    (match render (bytes_of_hex var) (bytes_of_hex src) with None -> "none" | Some o -> "ok " ^ hex_of_bytes o)
+  | ["TL"; file] -> (* the model's reader of a generated Go file *)
+    (match go_list_literal (bytes_of_hex file) with
+     | None -> "none"
+     | Some (v, ws) -> Printf.sprintf "ok %s %d %s" (hex_of_bytes v) (List.length ws) (String.concat "," (List.map hex_of_bytes ws)))
   | f -> snd (model_op init_state false (op_of_fields f))
 
 (* ---------- spec mode ---------- *)
